@@ -82,6 +82,12 @@ func c11Worlds(tier string) []*world.Spec {
 		}},
 		{Path: "/m2", Schema: modSchema, Files: []world.FileSpec{{Name: "m.tf", Text: "variable \"in\" {\n}\noutput \"out\" {\n  value = var.in\n}\n"}}},
 	}})
+	// two caller paths that are textual copies of each other (same file names, same ranges), both pointing into /m1
+	out = append(out, &world.Spec{SchemaID: "X:copied-callers", HookItems: -1, Paths: []world.PathSpec{
+		{Path: "/envs/dev", Schema: modSchema, Funcs: gen.Functions, Files: []world.FileSpec{{Name: "main.tf", Text: "module \"one\" {\n  source = \"./m1\"\n  in = \"eu\"\n}\noutput \"o\" {\n  value = module.one.out\n}\n"}}},
+		{Path: "/envs/prod", Schema: modSchema, Funcs: gen.Functions, Files: []world.FileSpec{{Name: "main.tf", Text: "module \"one\" {\n  source = \"./m1\"\n  in = \"eu\"\n}\noutput \"o\" {\n  value = module.one.out\n}\n"}}},
+		{Path: "/m1", Schema: modSchema, Funcs: gen.Functions, Files: []world.FileSpec{{Name: "main.tf", Text: "variable \"in\" {\n}\noutput \"out\" {\n  value = var.in\n}\n"}}},
+	}})
 	// two paths sharing one directory and differing only in language id (a module and its variable files),
 	// in both listing orders
 	tfP := lang.Path{Path: "/mod", LanguageID: "terraform"}
